@@ -232,8 +232,8 @@ def getMethod (n : Names) (cfg : GlobalConfig) (all : List Object) (resetFn : St
                                       repeat_ := match ov.repeat_ with | some r => some r | none => h.repeat_ } os,
                 resetFn)
         | .register ov, .register r =>
-          -- note: `ov.allowAddressOverlap` is not applied
           pure (Object.register { r with cfg := rf.cfg, description := rf.description,
+                                         allowAddressOverlap := r.allowAddressOverlap || ov.allowAddressOverlap,
                                          access := ov.access.getD r.access,
                                          address := ov.address.getD r.address,
                                          reset := match ov.reset with | some x => some x | none => r.reset,
@@ -241,12 +241,15 @@ def getMethod (n : Names) (cfg : GlobalConfig) (all : List Object) (resetFn : St
                 if ov.reset.isSome then s!"new_as_{n.method rf.name}" else resetFn)
         | .command ov, .command c =>
           pure (Object.command { c with cfg := rf.cfg, description := rf.description,
+                                        allowAddressOverlap := c.allowAddressOverlap || ov.allowAddressOverlap,
                                         address := ov.address.getD c.address,
                                         repeat_ := match ov.repeat_ with | some x => some x | none => c.repeat_ },
                 resetFn)
         | _, _ => throw (.panic "ref_expect")
       let (m, bs) ← getMethod n cfg all resetFn' fuel reffed
-      pure ({ m with name := n.method rf.name }, bs)
+      -- a ref to a block reuses the target's block types: what was collected on the way is dropped
+      let bs' := match rf.override with | .block _ => [] | _ => bs
+      pure ({ m with name := n.method rf.name }, bs')
 
 /-- `collect_into_blocks`: the block itself first, then whatever its methods collected. -/
 def collectIntoBlocks (n : Names) (cfg : GlobalConfig) (all : List Object) (fuel : Nat)
